@@ -13,6 +13,7 @@ import (
 	"verif/harness/evid"
 	"verif/harness/fakecass"
 	"verif/harness/rawcli"
+	"verif/harness/wire"
 )
 
 // ---- C02: a response is delivered only to the request (stream, client) that caused it ----
@@ -256,9 +257,183 @@ func c02CycleCheck(c c02Cycle) *evid.Fail {
 	return nil
 }
 
+// (d) immediate reuse of client stream ids: every client works sequentially on a handful of
+// stream ids, mixing forwarded requests (answered or refused by the backend) with requests the
+// proxy answers itself (successfully or with an error); a stream id is reused as soon as its
+// answer has arrived. Every frame must be the answer to the request outstanding on its stream.
+type c02ReuseOp struct {
+	Kind   string `json:"kind"` // fwd | fwd_err | fwd_retry | a local kind of localFrame
+	Stream int    `json:"stream"`
+}
+
+type c02Reuse struct {
+	Hosts   int            `json:"hosts"`
+	Conns   int            `json:"conns"`
+	Comp    []string       `json:"compression"` // per client
+	Clients [][]c02ReuseOp `json:"clients"`
+}
+
+var c02LocalKinds = []string{"options", "system_local", "system_peers", "system_bad_column", "system_json", "system_func", "use", "use_missing", "prepare_system", "register"}
+
+func c02ReuseCheck(c c02Reuse) *evid.Fail {
+	e, err := startEnv(envOpts{Hosts: c.Hosts, NumConns: c.Conns, Keyspaces: []string{"ks1"}})
+	if err != nil {
+		return evid.Failf("harness-env", "%v", err)
+	}
+	defer e.Close()
+	fails := make([]*evid.Fail, len(c.Clients))
+	done := make(chan int, len(c.Clients))
+	for ci := range c.Clients {
+		go func(ci int) {
+			defer func() { done <- ci }()
+			comp := c.Comp[ci%len(c.Comp)]
+			cl, err := e.client(4, comp)
+			if err != nil {
+				fails[ci] = evid.Failf("harness-client", "%v", err)
+				return
+			}
+			base := cl.NumFrames()
+			for oi, op := range c.Clients[ci] {
+				s := int16(op.Stream)
+				tok := nextToken()
+				var frm *wire.Frame
+				switch op.Kind {
+				case "fwd", "fwd_err", "fwd_retry":
+					switch op.Kind {
+					case "fwd_err":
+						e.Cluster.Script(tok, []fakecass.Outcome{{Kind: "invalid"}})
+					case "fwd_retry":
+						e.Cluster.Script(tok, []fakecass.Outcome{{Kind: "bootstrapping"}, {Kind: "ok"}})
+					}
+					frm, err = buildFrame(4, s, &message.Query{Query: "SELECT * FROM ks1.t WHERE tokc = '" + tok + "'", Options: &message.QueryOptions{Consistency: primitive.ConsistencyLevelOne}}, false, comp, false)
+				default:
+					frm, err = localFrame(4, s, op.Kind, tok, comp)
+				}
+				if err != nil {
+					fails[ci] = evid.Failf("harness-frame", "%v", err)
+					return
+				}
+				from := cl.NumFrames()
+				if from != base+oi {
+					fails[ci] = evid.Failf("stray-frame", "client %d: %d frames arrived for %d requests before op %d (%s on stream %d): an answer nobody was waiting for", ci, from-base, oi, oi, op.Kind, s)
+					return
+				}
+				if err := cl.SendFrame(frm); err != nil {
+					fails[ci] = evid.Failf("harness-send", "%v", err)
+					return
+				}
+				stallReset()
+				if !cl.WaitN(from+1, posWait) {
+					if cl.PeerClosed() {
+						fails[ci] = evid.Failf("client-closed", "client %d: connection closed by the proxy at op %d (%s)", ci, oi, op.Kind)
+					} else if stalled(posWait) {
+						fails[ci] = evid.Failf("harness-stall", "stalled")
+					} else {
+						fails[ci] = evid.Failf("no-reply:reuse", "client %d op %d (%s on stream %d): no answer", ci, oi, op.Kind, s)
+					}
+					return
+				}
+				r := cl.Frames()[from]
+				if r.F.Stream != s {
+					fails[ci] = evid.Failf("wrong-stream", "client %d op %d (%s): the only outstanding request is on stream %d but a frame arrived on stream %d", ci, oi, op.Kind, s, r.F.Stream)
+					return
+				}
+				b, derr := cl.Decode(r)
+				if derr != nil {
+					fails[ci] = evid.Failf("answer-foreign", "client %d op %d (%s): undecodable answer: %v", ci, oi, op.Kind, derr)
+					return
+				}
+				echo, _ := parseEcho(b.Message)
+				em, isErr := b.Message.(message.Error)
+				bad := func(why string) {
+					fails[ci] = evid.Failf("answer-foreign:"+op.Kind, "client %d op %d: %s on stream %d (token %s, stream last used by op %s) was answered with %v: %s", ci, oi, op.Kind, s, tok, prevOn(c.Clients[ci], oi), b.Message, why)
+				}
+				switch op.Kind {
+				case "fwd":
+					if echo == nil || echo.Tok != tok {
+						bad("not the backend's result for this token")
+						return
+					}
+				case "fwd_retry":
+					// with a single host the retry finds the plan exhausted: the proxy's own error is this request's answer
+					exhausted := isErr && c.Hosts == 1 && !strings.Contains(em.GetErrorMessage(), "tok=")
+					if !exhausted && (echo == nil || echo.Tok != tok) {
+						bad("not the backend's result for this token")
+						return
+					}
+				case "fwd_err":
+					if !isErr || !strings.Contains(em.GetErrorMessage(), "tok="+tok+" ") {
+						bad("not the backend's error for this token")
+						return
+					}
+				case "options":
+					if _, ok := b.Message.(*message.Supported); !ok {
+						bad("want SUPPORTED")
+						return
+					}
+				case "system_local", "system_peers":
+					if _, ok := b.Message.(*message.RowsResult); !ok || echo != nil {
+						bad("want the proxy's own rows")
+						return
+					}
+				case "system_bad_column", "system_json", "system_func", "use_missing":
+					if !isErr || strings.Contains(em.GetErrorMessage(), "tok=") {
+						bad("want the proxy's (or for USE the backend's) own error for this request")
+						return
+					}
+				case "use":
+					if _, ok := b.Message.(*message.SetKeyspaceResult); !ok {
+						bad("want SET_KEYSPACE")
+						return
+					}
+				case "prepare_system":
+					if _, ok := b.Message.(*message.PreparedResult); !ok {
+						bad("want PREPARED")
+						return
+					}
+				case "register":
+					if _, ok := b.Message.(*message.Ready); !ok {
+						bad("want READY")
+						return
+					}
+				}
+			}
+			_, _ = cl.Fence(4, posWait)
+			cl.Quiesce(8*time.Millisecond, 200*time.Millisecond)
+			extra := 0
+			for _, r := range cl.Frames()[base:] {
+				if r.F.Stream < 30000 {
+					extra++
+				}
+			}
+			if extra != len(c.Clients[ci]) {
+				fails[ci] = evid.Failf("stray-frame", "client %d: %d frames for %d requests", ci, extra, len(c.Clients[ci]))
+			}
+		}(ci)
+	}
+	for range c.Clients {
+		<-done
+	}
+	for _, f := range fails {
+		if f != nil {
+			return f
+		}
+	}
+	return nil
+}
+
+func prevOn(ops []c02ReuseOp, oi int) string {
+	for j := oi - 1; j >= 0; j-- {
+		if ops[j].Stream == ops[oi].Stream {
+			return fmt.Sprintf("%d (%s)", j, ops[j].Kind)
+		}
+	}
+	return "none"
+}
+
 func TestC02(t *testing.T) {
 	rec := evid.New("C02", "exploration",
-		"(a) 2..6 clients using the same client stream ids pipeline requests whose backend replies are held and released in a generated order (plus retried errors); (b) the 2048 backend stream ids of a connection are recycled by thousands of sequential requests, then several clients hold requests concurrently on equal stream ids and the backend releases them in a generated permutation; (c) more requests than the per-connection stream limit are held at once; "+
+		"(d) 1..4 clients work sequentially on 1..3 stream ids each, mixing forwarded requests (answered, refused, retried) with requests the proxy answers itself (OPTIONS, REGISTER, USE, system reads, rejected system reads, PREPARE of a system read) and reusing a stream id as soon as its answer arrived: each frame must be the answer to the request outstanding on its stream and nothing else may arrive; (a) 2..6 clients using the same client stream ids pipeline requests whose backend replies are held and released in a generated order (plus retried errors); (b) the 2048 backend stream ids of a connection are recycled by thousands of sequential requests, then several clients hold requests concurrently on equal stream ids and the backend releases them in a generated permutation; (c) more requests than the per-connection stream limit are held at once; "+
 			"oracle: the token echoed in the frame received on (client, stream) is the token sent there (errors carry the token too); beyond the limit a request gets its own single proxy error; "+
 			"non-trivial = >=2 requests in flight on one backend connection released out of order, or equal stream ids live on >=2 clients; distinct by case content")
 	defer finish(t, rec)
@@ -288,6 +463,45 @@ func TestC02(t *testing.T) {
 			return f
 		}
 		return oracleOneReply(res)
+	})
+
+	runProp(t, rec, "reuse", perShard(evid.Pick(300, 12000)), func(rt *rapid.T) c02Reuse {
+		c := c02Reuse{Hosts: rapid.IntRange(1, 3).Draw(rt, "hosts"), Conns: rapid.IntRange(1, 2).Draw(rt, "conns")}
+		nc := rapid.IntRange(1, 4).Draw(rt, "nclients")
+		streams := rapid.IntRange(1, 3).Draw(rt, "nstreams")
+		c.Comp = rapid.SliceOfN(rapid.SampledFrom([]string{"", "", "lz4", "snappy"}), nc, nc).Draw(rt, "comp")
+		reuseAfterLocalErr := false
+		for i := 0; i < nc; i++ {
+			n := rapid.IntRange(2, 14).Draw(rt, "nops")
+			var ops []c02ReuseOp
+			for j := 0; j < n; j++ {
+				k := "fwd"
+				switch rapid.IntRange(0, 9).Draw(rt, "k") {
+				case 0, 1, 2:
+					k = rapid.SampledFrom(c02LocalKinds).Draw(rt, "local")
+				case 3:
+					k = "fwd_err"
+				case 4:
+					k = "fwd_retry"
+				}
+				ops = append(ops, c02ReuseOp{Kind: k, Stream: rapid.IntRange(0, streams-1).Draw(rt, "s")})
+			}
+			for j := range ops {
+				if p := prevOn(ops, j); strings.Contains(p, "system_") || strings.Contains(p, "use_missing") || strings.Contains(p, "fwd_err") {
+					reuseAfterLocalErr = true
+				}
+			}
+			c.Clients = append(c.Clients, ops)
+		}
+		rec.Case("reuse:"+js(c), "reuse", map[bool]string{true: "reuse-after-error-answer", false: ""}[reuseAfterLocalErr], fmt.Sprintf("reuse-clients:%d", nc))
+		rec.Sample(c)
+		return c
+	}, func(c c02Reuse) *evid.Fail {
+		f := c02ReuseCheck(c)
+		if f != nil && f.Sig == "harness-stall" {
+			inconclusive(rec, "%s", f.Msg)
+		}
+		return f
 	})
 
 	runProp(t, rec, "cycle", perShard(evid.Pick(24, 1200)), func(rt *rapid.T) c02Cycle {
